@@ -371,6 +371,12 @@ def run(chk):
     c06.r3_unique_prefix(chk, prog, 'R9')
     chk.rule('R10', 'repeatable built-in arguments have no upper cardinality', 3)
     r10_repeatable_builtins(chk, prog)
+    # the tokeniser starts every word at its first character, whatever the kind of the previous word: the cursor
+    # invariant of ArgListIterator (constructor and operator++, Engine C, shared with C04-R6) - a free value at the
+    # start of the line must not leave the cursor inside the next word
+    chk.rule('R11', 'tokeniser cursor invariant: every word is analysed from its first character', 4)
+    from . import c04_cursor
+    c04_cursor.run(chk, prog, rule='R11')
     sub = type(chk)(chk.pid, chk.tier)
     sub._known = []
     c02.r3_canonical_key(sub, prog)
